@@ -1,13 +1,25 @@
-(* The beat metrics of mir_eval/beat.py, tied to the hand-written model by TRANSLATION.
+(* The beat metrics of mir_eval/beat.py, tied to the hand-written model by TRANSLATION
+   (this file: trim_beats, _get_reference_beat_variations, cemgil; BeatTieGoto.v: goto; BeatTieCont.v: continuity).
 
    translator/beatfuncs.py turns the bodies of
      trim_beats, _get_reference_beat_variations, cemgil, goto, continuity
    into programs of the Python / NumPy sub-language of Model/BeatExp.v (Gen/BeatGen.v, regenerated on every check).
-   This file proves, for ALL inputs (all rational beat arrays and thresholds), that running each generated program
-   gives what the model function of Model/Beat.v gives, including which exception is raised. The callees
-   (validate, _get_reference_beat_variations) are instantiated by the MODEL's functions (beat_ext); call sites are
-   bound to the callee signatures read from the source in the same run (beat_sigs, pinned by beat_sigs_expected).
-   Float results are compared up to == of Q (the program and the model associate the same arithmetic differently). *)
+   These files prove, for ALL inputs (all rational beat arrays and thresholds), that running each generated program
+   gives what the model function of Model/Beat.v gives, including which exception is raised.
+     trim_beats_tie(_int)      program = Beat.trim_beats                         (Leibniz equality of the arrays)
+     variations_tie(_all)      program = (ref, odds d, d, evens ref, odds ref) with d == Beat.double_beats ref entrywise
+                               (np.arange / np.interp index arithmetic by induction over the beats)
+     cemgil_tie                program == Beat.cemgil g with g d = fexp (-(d*d) / (2 * (sigma*sigma))), fexp = np.exp arbitrary,
+                               sigma <> 0 (both loops by induction; the normaliser; accuracies[0] and np.max)
+     goto_tie, continuity_tie  (BeatTieGoto.v, BeatTieCont.v)
+   Callees. The calls of `validate` and `_get_reference_beat_variations` are opaque; call sites are bound to the callee
+   signatures read from the source in the same run (beat_sigs, pinned by beat_sigs_expected). The *_tie theorems
+   instantiate the callees by the MODEL's functions (beat_ext). The *_tie_gen theorems hold for every [ext] that answers
+   validate as the model does and the variations call with any tuple of arrays [vars_of ref]; the *_tie_prog theorems
+   instantiate the variations callee by the TRANSLATED program itself (prog_ext; through variations_tie and the invariance of
+   the model under == of the annotation times), so that the chain continuity -> _get_reference_beat_variations is closed.
+   Float results are compared up to == of Q (the program and the model associate the same arithmetic differently);
+   every comparison / branch of the programs is decided exactly as in the model. *)
 From Coq Require Import String.
 From Coq Require Import List Bool Arith ZArith QArith Qabs Qminmax Qround Lia Lqa.
 From ME Require Import Model.Prelude Model.BeatExp Gen.BeatGen.
